@@ -64,6 +64,12 @@
      || ((kind) == REF_ARG_PATH && (al) < (el) && (al) > 0 && (a)[(al) - 1] == '/')   /* argument ends with '/' and is a prefix of the rule value */ \
      || ((kind) == REF_ARG_NAMESPACE && (el) < (al) && (a)[el] == '.')))              /* argument continues the namespace with '.' */
 
+/* string equality and path_namespace membership on (bytes, length) pairs, unrolled (<= REF_MAXS bytes) */
+#define REF_STREQ_N(a, al, b, bl) ((al) == (bl) && REF_EQN (a, b, al))
+/* path_namespace: "the object path is either the given value, or that value followed by one or more path components"
+ * (see ref_path_in_namespace below for the reading of the root namespace) */
+#define REF_PATH_IN_NS_N(p, pl, ns, nl) ((pl) >= (nl) && REF_EQN (p, ns, nl) && ((pl) == (nl) || ((nl) == 1 && (ns)[0] == '/') || (p)[nl] == '/'))
+
 /* the same for any length (plain C) */
 static int ref_eqn (const char *a, const char *b, long n) { long k; for (k = 0; k < n; k++) if (a[k] != b[k]) return 0; return 1; }
 static int ref_slash_prefix (const char *x, long xl, const char *y, long yl)
@@ -217,4 +223,102 @@ static int ref_type_from_string (const char *v, long n)
   if (n == 5 && ref_eqn (v, "error", 5)) return REF_MT_ERROR;
   return REF_MT_INVALID;
 }
+
+/* ------------------------------------------------------------------------------------------------
+ * 3b. whole-rule reference parser (plain C; native replay and bounded units).
+ * "Rules are specified as a string of comma separated key/value pairs."  Readings where the specification is
+ * silent (each is a documented choice, not taken from a validator's verdict):
+ *   - white space (space, tab, CR, LF) before a key and between a key and its '=' is tolerated; everything after
+ *     the '=' belongs to the value;
+ *   - the empty rule (no pair at all) is a rule (it matches every broadcast); a value ends at an unquoted comma or
+ *     at the end of the text, so one trailing comma is tolerated;
+ *   - every pair has a non-empty key from the table; a key may be given once ("path" and "path_namespace"
+ *     exclude each other: "Using both path and path_namespace in the same match rule is not allowed"; argN,
+ *     argNpath and arg0namespace on the same N are the same slot); eavesdrop may be repeated (the text allows
+ *     eavesdrop='false' to "restore the default behaviour");
+ *   - REF_DEST_ANY_BUS_NAME: the table says destination is "A unique name"; the reference bus accepts any bus
+ *     name.  1 = follow the leniency (default), 0 = the table literally.
+ */
+#ifndef REF_DEST_ANY_BUS_NAME
+#define REF_DEST_ANY_BUS_NAME 1
+#endif
+#ifndef REF_NO_GRAMMAR
+#include "grammar_ref.h"
+#define REF_PARSE_OK 0
+#define REF_PARSE_INVALID 1          /* org.freedesktop.DBus.Error.MatchRuleInvalid */
+#define REF_PARSE_LIMITS 2           /* org.freedesktop.DBus.Error.LimitsExceeded: "> DBUS_MAXIMUM_MATCH_RULE_LENGTH" */
+#ifndef REF_MAX_VALUE
+#define REF_MAX_VALUE 1100
+#endif
+typedef struct
+{
+  RefRule r;
+  int npairs;
+  int arg_kind[REF_MAX_ARG + 1];      /* -1: no match on that argument */
+  long arg_len[REF_MAX_ARG + 1];
+  char arg_val[REF_MAX_ARG + 1][REF_MAX_VALUE];
+  char sender[REF_MAX_VALUE], interface[REF_MAX_VALUE], member[REF_MAX_VALUE], path[REF_MAX_VALUE], destination[REF_MAX_VALUE];
+} RefParsed;
+static int ref_parse_rule (const char *text, long n, RefParsed *out)
+{
+  long pos = 0, i; int seen_eaves = 0;
+  static char val[REF_MAX_VALUE];
+  out->npairs = 0; out->r.has_type = 0; out->r.type = 0; out->r.eavesdrop = 0;
+  out->r.sender = out->r.interface = out->r.member = out->r.path = out->r.path_namespace = out->r.destination = 0;
+  for (i = 0; i <= REF_MAX_ARG; i++) out->arg_kind[i] = -1;
+  if (n > REF_MAX_RULE_LENGTH) return REF_PARSE_LIMITS;
+  for (;;)
+    {
+      long ks, ke, vl = 0; int key, argno = -1;
+      while (pos < n && REF_ISWHITE (text[pos])) pos++;
+      if (pos >= n) return REF_PARSE_OK;
+      ks = pos; while (pos < n && text[pos] != '=' && !REF_ISWHITE (text[pos])) pos++;
+      ke = pos; while (pos < n && REF_ISWHITE (text[pos])) pos++;
+      if (ke == ks) return REF_PARSE_INVALID;                       /* a pair needs a key */
+      if (pos >= n || text[pos] != '=') return REF_PARSE_INVALID;   /* "key/value pairs" */
+      pos = ref_value (text, pos + 1, val, &vl);
+      if (pos < 0) return REF_PARSE_INVALID;                        /* "an apostrophe ends the quoted section": unterminated */
+      val[vl] = 0;
+      key = ref_key (text + ks, ke - ks, &argno);
+      out->npairs++;
+      switch (key)
+        {
+        case REF_KEY_TYPE:
+          if (out->r.has_type || ref_type_from_string (val, vl) == REF_MT_INVALID) return REF_PARSE_INVALID;
+          out->r.has_type = 1; out->r.type = ref_type_from_string (val, vl); break;
+        case REF_KEY_SENDER:           /* "A bus or unique name" */
+          if (out->r.sender || !ref_bus_name_full ((const unsigned char *) val, (int) vl, 0)) return REF_PARSE_INVALID;
+          for (i = 0; i <= vl; i++) out->sender[i] = val[i]; out->r.sender = out->sender; break;
+        case REF_KEY_INTERFACE:        /* "An interface name" */
+          if (out->r.interface || !ref_interface ((const unsigned char *) val, (int) vl)) return REF_PARSE_INVALID;
+          for (i = 0; i <= vl; i++) out->interface[i] = val[i]; out->r.interface = out->interface; break;
+        case REF_KEY_MEMBER:           /* "Any valid method or signal name" */
+          if (out->r.member || !ref_member ((const unsigned char *) val, (int) vl)) return REF_PARSE_INVALID;
+          for (i = 0; i <= vl; i++) out->member[i] = val[i]; out->r.member = out->member; break;
+        case REF_KEY_PATH: case REF_KEY_PATH_NAMESPACE:   /* "An object path" */
+          if (out->r.path || out->r.path_namespace || !ref_path ((const unsigned char *) val, (int) vl)) return REF_PARSE_INVALID;
+          for (i = 0; i <= vl; i++) out->path[i] = val[i];
+          if (key == REF_KEY_PATH) out->r.path = out->path; else out->r.path_namespace = out->path; break;
+        case REF_KEY_DESTINATION:      /* "A unique name" */
+          if (out->r.destination || !ref_bus_name_full ((const unsigned char *) val, (int) vl, 0)) return REF_PARSE_INVALID;
+          if (!REF_DEST_ANY_BUS_NAME && val[0] != ':') return REF_PARSE_INVALID;
+          for (i = 0; i <= vl; i++) out->destination[i] = val[i]; out->r.destination = out->destination; break;
+        case REF_KEY_EAVESDROP:        /* 'true', 'false' */
+          if (vl == 4 && ref_eqn (val, "true", 4)) out->r.eavesdrop = 1;
+          else if (vl == 5 && ref_eqn (val, "false", 5)) out->r.eavesdrop = 0;
+          else return REF_PARSE_INVALID;
+          seen_eaves = 1; break;
+        case REF_KEY_ARG: case REF_KEY_ARGPATH: case REF_KEY_ARG0NAMESPACE:
+          if (out->arg_kind[argno] >= 0) return REF_PARSE_INVALID;
+          /* arg0namespace: "Like a bus name, except that the string is not required to contain a '.' (period)" */
+          if (key == REF_KEY_ARG0NAMESPACE && !ref_bus_name_full ((const unsigned char *) val, (int) vl, 1)) return REF_PARSE_INVALID;
+          out->arg_kind[argno] = key == REF_KEY_ARG ? REF_ARG_PLAIN : key == REF_KEY_ARGPATH ? REF_ARG_PATH : REF_ARG_NAMESPACE;
+          out->arg_len[argno] = vl; for (i = 0; i <= vl; i++) out->arg_val[argno][i] = val[i]; break;
+        default:
+          return REF_PARSE_INVALID;                                  /* not a key of the table */
+        }
+    }
+  (void) seen_eaves;
+}
+#endif /* REF_NO_GRAMMAR */
 #endif
